@@ -81,3 +81,17 @@ Theorem c01_maxev_ok_sound : forall eps c lam_ub n A, is_square n A = true ->
   (forall x, length x = n -> qf A x <= lam_ub * dot x x) /\ c <= lam_ub * (1 + eps).
 Proof. exact maxev_ok_sound. Qed.
 Print Assumptions c01_maxev_ok_sound.
+
+(* eigh variant: X^p Ad = I + U f(E)^p R U^T where R is the eigen-residual the routine reports;
+   holds in every (non-commutative) ring of matrices *)
+Theorem c01_eigh_residual_identity : forall (M : Type) (mul add : M -> M -> M) (one : M),
+  (forall a b c, mul a (mul b c) = mul (mul a b) c) ->
+  (forall a, mul one a = a) -> (forall a, mul a one = a) ->
+  (forall a b c, mul a (add b c) = add (mul a b) (mul a c)) ->
+  (forall a b c, mul (add a b) c = add (mul a c) (mul b c)) ->
+  forall U Ut E R Fp Ad Xp : M,
+  mul U Ut = one -> mul Ut U = one -> mul Fp E = one ->
+  mul (mul Ut Ad) U = add E R -> Xp = mul (mul U Fp) Ut ->
+  mul Xp Ad = add one (mul (mul (mul U Fp) R) Ut).
+Proof. exact eigh_residual_identity. Qed.
+Print Assumptions c01_eigh_residual_identity.
